@@ -173,6 +173,12 @@ partial def cstepP : P Cfg.TC := do
   | "unesc" => do let k ← hexTok; pure (.unescape k)
   | "redact" => do let k ← hexTok; let l ← hexTok; pure (.redactEmail k l)
   | "ptime" => do let k ← hexTok; let l ← hexTok; pure (.parseTime k l)
+  | "regex" => do
+    let k ← hexTok
+    let ok ← tok
+    let n ← natTok
+    let caps ← repeatP n hexTok
+    pure (.regex k (ok == "1") caps)
   | _ => failure
 
 partial def cstepsP : P (List Cfg.TC) := do
